@@ -23,8 +23,13 @@ from tlc import Scratch, read_emitted, run_tlc
 RTOL = 1e-9
 
 
-def close(a, b):
-    return abs(a - b) <= RTOL * max(1.0, abs(a), abs(b))
+def close(a, b, rtol=RTOL):
+    return abs(a - b) <= rtol * max(1.0, abs(a), abs(b))
+
+
+# measured float noise of exp(Qt) composition for 61- / 20-state models on the unchanged tree is ~3e-9
+# relative (SplitEdge, CNFGTR); the tolerance is >= 100x that.  4-state models stay at 1e-9.
+KIND_RTOL = {"nucleotide": 1e-9, "codon": 1e-6, "protein": 1e-6}
 
 
 def frac(r):
@@ -80,8 +85,15 @@ def random_problem(rnd, kind):
         for _ in range(n):
             base = rnd.choice(sense)
             col = [base if rnd.random() < 0.6 else rnd.choice(sense) for _ in taxa]
-            if rnd.random() < 0.15:
+            r = rnd.random()
+            if r < 0.15:
                 col[rnd.randrange(5)] = "---"
+            elif r < 0.3:
+                # a codon known only in part (frame-breaking gap / N): compatible with the sense codons matching its known positions
+                k = rnd.randrange(5)
+                c = list(col[k])
+                c[rnd.randrange(3)] = rnd.choice("-N")
+                col[k] = "".join(c)
             cols.append(col)
         seqs = {t: "".join(c[i] for c in cols) for i, t in enumerate(taxa)}
         mt, ml = "dna", 3
@@ -151,7 +163,7 @@ def relational(run, seed, models, nproblems):
             def expect(tag, value, want=base):
                 nonlocal ncases
                 ncases += 1
-                if not close(value, want):
+                if not close(value, want, KIND_RTOL[kind]):
                     run.fail(f"relational:{kind}:{'reversible' if reversible else 'non-reversible'}:{tag}", {"model": name, "transform": tag, "lnL_before": want, "lnL_after": value, "newick": tree.get_newick(with_distances=True), "params": params, "alignment": aln.to_dict()}, what=f"lnL changed under {tag} ({name})")
 
             ncol = len(aln) // ml
